@@ -91,7 +91,9 @@ class G:
         laws = self.U.fields.get("_laws")
         if isinstance(laws, Obj):
             laws.name = "laws"
-        self.objs = list(V.values()) + self.L + [self.U] + ([laws] if isinstance(laws, Obj) else [])
+        # a second universe sharing the vertex a (listed first) with U, and holding the outside vertex x
+        self.U2 = h.new("Universe", "U2", vertices=Seq([V["a"], V["x"]], "list"))
+        self.objs = list(V.values()) + self.L + [self.U, self.U2] + ([laws] if isinstance(laws, Obj) else [])
         h.fn("edgegraph.structure.vertex.Vertex").dict["NEIGHBOR_CACHING"] = bool(caching)
         h.settle()
 
@@ -121,6 +123,7 @@ def entry_points(h, rec):
     if dumps is not None:
         eps.append(("nrpickler.dumps", "edgegraph.output.nrpickler.dumps", (), lambda g, cb: _len_only(h.call(dumps, g.V["a"]))))
         eps.append(("nrpickler.dumps(universe)", "edgegraph.output.nrpickler.dumps", (), lambda g, cb: _len_only(h.call(dumps, g.U))))
+        eps.append(("nrpickler.dumps(second universe)", "edgegraph.output.nrpickler.dumps", (), lambda g, cb: _len_only(h.call(dumps, g.U2))))
     pu = f("edgegraph.output.plantuml.render_to_plantuml_src")
     eps.append(("render_to_plantuml_src", "edgegraph.output.plantuml.render_to_plantuml_src", ("user_render_func",), lambda g, cb: plantuml_call(h, pu, g, cb)))
     eps.append(("render_to_plantuml_src(title_format='T_{name}')", "edgegraph.output.plantuml.render_to_plantuml_src", (), lambda g, cb: plantuml_call(h, pu, g, cb, "T_{name}")))
@@ -323,6 +326,8 @@ def run(ctx):
     hist.run(ctx, res, 'C13')       # composition: histories through the public API against the reference model (rules/hist.py)
     from rules import scale
     scale.run(ctx, res, 'C13')      # the same on graphs whose collections have the sizes the tree names (rules/scale.py)
+    from rules import genproto
+    genproto.run(ctx, res, 'C13')      # generator protocol: suspended / interleaved / abandoned generators, a fault inside one (rules/genproto.py)
     common.vacuity(res, "HISTORY", 10000)
     common.vacuity(res, "FAULT-SWEEP", 150)
     res.analysed = common.analysed(ctx, sorted({q for _, q, _, _ in entry_points(h, rec)}))
